@@ -78,6 +78,80 @@ def h14_mem(S, steps=4, n_msgs=2, backend="mem"):
     run_async(main)
 
 
+def h14_consumer_failure(S):
+    """Worker A's consumer fails (connection lost) while one of A's actors is still running a message of that queue; worker B serves
+    the same queue: the running message is not delivered to B while A works on it."""
+    from repid import Job, Router, Worker
+    from repid.converter import BasicConverter
+
+    # (concrete instants: a symbolic one would be compared with every 1 ms poll of two idle consumers)
+    t_fail = [Fraction(1, 20), Fraction(1, 5), Fraction(2, 5)][S.pick("consumer_fails_after", 3)]
+    log = []
+    out = {}
+
+    async def main(loop):
+        w = World()
+        await w.open(record=False)
+        base = w.broker.CONSUMER_CLASS
+        t0 = loop.time()
+
+        class Flaky(base):
+            owner = None
+
+            async def consume(self):
+                if self.owner == "A" and self.delivered:
+                    delay = t0 + t_fail - loop.time()
+                    if delay > 0:
+                        await asyncio.sleep(delay)
+                    raise RuntimeError("consumer connection lost")
+                m = await super().consume()
+                self.delivered = True
+                return m
+
+        Flaky.delivered = False
+
+        def router(name):
+            r = Router()
+
+            @r.actor(name="job", converter=BasicConverter)
+            async def job(i: int):
+                log.append((name, "start", i, loop.time()))
+                await asyncio.sleep(Fraction(1, 2))
+                log.append((name, "end", i, loop.time()))
+            return r
+
+        await Job("job", args={"i": 1}, id_="m1", _connection=w.conn).enqueue()
+        orig_get = w.broker.get_consumer
+        made = []
+
+        def get_consumer(*a, **k):
+            w.broker.CONSUMER_CLASS = Flaky
+            c = orig_get(*a, **k)
+            c.owner = "A" if not made else "B"
+            c.delivered = False
+            made.append(c)
+            return c
+
+        w.broker.get_consumer = get_consumer
+        wa = Worker(routers=[router("A")], handle_signals=[], _connection=w.conn, graceful_shutdown_time=2.0, tasks_limit=2)
+        ta = asyncio.create_task(wa.run())
+        await asyncio.sleep(Fraction(5, 1000))
+        wb = Worker(routers=[router("B")], handle_signals=[], _connection=w.conn, graceful_shutdown_time=2.0, tasks_limit=2, messages_limit=1)
+        tb = asyncio.create_task(wb.run())
+        await asyncio.sleep(Fraction(3, 2))
+        for t in (ta, tb):
+            t.cancel()
+        await asyncio.gather(ta, tb, return_exceptions=True)
+
+    run_async(main)
+    S.cover("consumer-failed-mid-run")
+    starts = [(n, t) for n, ev, i, t in log if ev == "start"]
+    ends = {n: t for n, ev, i, t in log if ev == "end"}
+    overlap = [n for n, t in starts if any(m != n and t2 <= t and ends.get(m, 10**9) > t for m, t2 in starts)]
+    S.check("delivered-only-if-nobody-holds-it", not overlap, info=f"executions of m1: {log}")
+    S.check("successful-job-executed-once", len(starts) == 1, info=f"{log}")
+
+
 def h14_requeue_cancel(S, backend="mem"):
     """The holder's requeue is cancelled after j loop steps and followed by a reject (what the runner does on a
     forced stop); afterwards two consumers must never hold the same id at once."""
@@ -455,6 +529,9 @@ HARNESSES = [
             bounds={"consumers": "2 on one in-memory queue", "messages": "2", "history": "4 quick / 5 thorough calls from {A.consume, B.consume, A.finish, B.finish, ack/reject by the holder}"},
             functions=["connections/in_memory/consumer.py:_InMemoryConsumer.finish", "connections/in_memory/consumer.py:_InMemoryConsumer.consume"],
             covers=["delivered", "finish", "reject"]),
+    Harness(name="H14-consumer-failure", scenario=h14_consumer_failure, workers=4,
+            bounds={"workers": "A and B on one in-memory queue; A runs a 0.5 s job", "A's consumer fails": "50, 200 or 400 ms into the job"},
+            functions=["_runner.py:_Runner.run_one_queue", "connections/in_memory/consumer.py:_InMemoryConsumer.finish"], covers=["consumer-failed-mid-run"]),
     Harness(name="H14-redis-hist", scenario=h14_mem, workers=16, budget_s=900,
             params={"quick": {"steps": 4, "n_msgs": 3, "backend": "redis"}, "thorough": {"steps": 5, "n_msgs": 3, "backend": "redis"}},
             bounds={"two consumers": "two Redis connections to one server, their calls one after the other (no overlap: the overlapping take is H14-redis-race)",
